@@ -38,7 +38,7 @@ def update_own(results, commit):
         if own is None:
             continue
         meta["detection"]["own_check_latest"] = {
-            "verif_commit": commit, "validated_again": rec.get("validated"),
+            "verif_commit": commit, "validated_again": (None if rec.get("fast") else rec.get("validated")),
             "reports_it": own.get("rc") == 1, "violation_line": (own.get("violations") or [""])[0],
             "replay_head": (own.get("replay_head") or "")[:1500]}
         json.dump(meta, open(mp, "w"), indent=1)
